@@ -19,7 +19,7 @@ const (
 )
 
 func runC02(x *mc.X) {
-	noCache := mc.Pick(x, "stored.no-cache", []string{"", "no-cache", `no-cache="Set-Cookie, X-Secret"`})
+	noCache := mc.Pick(x, "stored.no-cache", []string{"", "no-cache", `no-cache="Set-Cookie, X-Secret"`, `no-cache="set-cookie,X-SECRET"`})
 	mustReval := x.Choose("stored.must-revalidate", 2) == 1
 	maxAge := mc.Pick(x, "stored.max-age", []string{"10", "0"})
 	swr := x.Choose("stored.swr", 2) == 1
@@ -28,7 +28,7 @@ func runC02(x *mc.X) {
 	validators := mc.Pick(x, "stored.validators", []string{"etag", "lm", "both", "none"})
 	elapsed := mc.Pick(x, "elapsed", []int64{2, 10, 20})
 	reqDir := mc.Pick(x, "req.directive", c02ReqDirs)
-	answerKind := mc.Pick(x, "origin.answer", []string{"304", "304+fields", "200", "500", "503", "error"})
+	answerKind := mc.Pick(x, "origin.answer", []string{"304", "304+fields", "200", "500", "503", "error", "304+no-cache"})
 
 	w := world.New(world.Opt{})
 	defer w.Close()
@@ -56,13 +56,16 @@ func runC02(x *mc.X) {
 	answerFn(w, func(o *world.Origin, c *world.Call) (*http.Response, error) {
 		cond := c.Header.Get("If-None-Match") != "" || c.Header.Get("If-Modified-Since") != ""
 		switch answerKind {
-		case "304", "304+fields":
+		case "304", "304+fields", "304+no-cache":
 			if !cond {
 				return o.Respond(c, RS{Status: 200, H: H("Cache-Control", "max-age=10", "ETag", `"etag-v2"`)}), nil
 			}
 			hh := H("ETag", c02ETag)
 			if answerKind == "304+fields" {
 				hh = append(hh, [2]string{"X-New", "n"}, [2]string{"Cache-Control", "max-age=10"})
+			}
+			if answerKind == "304+no-cache" {
+				hh = append(hh, [2]string{"Cache-Control", "max-age=1000, no-cache"})
 			}
 			return o.Respond(c, RS{Status: 304, NoTok: true, H: hh}), nil
 		case "200":
@@ -124,7 +127,17 @@ func runC02(x *mc.X) {
 
 	servedStored := o2.Err == nil && o2.Tok != "" && o2.Tok == o1.Tok
 	validated304 := len(o2.Calls) == 1 && o2.Calls[0].RespCode == 304 && o2.Calls[0].Err == nil
-	if servedStored && !validated304 && noCache == `no-cache="Set-Cookie, X-Secret"` {
+	if answerKind == "304+no-cache" && validated304 && o2.Err == nil && o2.Tok == o1.Tok {
+		// the 304 made the stored response "no-cache": a further plain request must be validated again
+		world.Advance(secs(1))
+		o3 := w.Do(world.Req("GET", U, "X-Client", "c2", "Accept", "text/x-verif"))
+		logObs(x, "plain GET 1 s after a 304 that carried no-cache", o3)
+		x.Nontrivial("directive delivered by a 304/" + obsClass(o3))
+		if o3.Err == nil && o3.Panic == nil && o3.Tok == o1.Tok && len(o3.Calls) == 0 {
+			x.Failf("no-cache delivered by a 304 is not honoured afterwards", "the validation reply replaced Cache-Control by %q, yet the next request was served without validation: %s", "max-age=1000, no-cache", o3)
+		}
+	}
+	if servedStored && !validated304 && strings.HasPrefix(noCache, `no-cache="`) {
 		x.Nontrivial("qualified-no-cache/" + o2.CacheStatus)
 		if o2.Header.Get("Set-Cookie") != "" || o2.Header.Get("X-Secret") != "" {
 			x.Failf("qualified no-cache fields replayed without validation ("+o2.CacheStatus+")", "response served from the store without validation carries Set-Cookie=%q X-Secret=%q", o2.Header.Get("Set-Cookie"), o2.Header.Get("X-Secret"))
